@@ -308,7 +308,7 @@ end C10
 def argsortReplay (j : Json) : Except String Json := do
   let ids ← j.getObjValAs? (List String) "ids"
   let trace ← j.getObjValAs? (List (Nat × Nat)) "trace"
-  return toJson (Hpv.Sorting.argsort ids trace)
+  return Json.mkObj [("by_id", toJson (Hpv.Sorting.argsort ids trace)), ("by_position", toJson (Hpv.Sorting.argsortPos ids.length trace))]
 
 /-! ### C09 -/
 section C09
